@@ -4,6 +4,7 @@
   lemmas of Lemmas/LexCompose.lean).
 -/
 import RevalModel.Lemmas.LexCompose
+import RevalModel.Lemmas.DecText
 
 namespace Reval.LexC
 open Reval Reval.Lex Reval.G Reval.Disp
@@ -40,7 +41,7 @@ theorem lexShow_lit (v : Value) (h : TextOK sf (.lit v)) : LexShow sf (.lit v) :
     exact Lexes.tok (w := 'f' :: sf f) (by simp) (by simpa using h r (by simpa [needsParens] using hr)) hT
   case dec d =>
     simp only [sv_dec, litTok]
-    exact Lexes.tok (w := 'd' :: showDec d) (by simp) (by simpa using h r (by simpa [needsParens] using hr)) hT
+    exact Lexes.tok (w := 'd' :: showDec d) (by simp) (by simpa using dec_step d r (by simpa [needsParens] using hr)) hT
   case bool b =>
     cases b
     · simp only [sv_false, litTok]; exact lx_kw kwText_lit.2.1 _ hr hT
